@@ -331,7 +331,7 @@ def rule_reserve_post(ctx, rule="C11-reserve"):
         gs = guards_at(b, bb)
         t = b.term(bb)
         cap_ok = any(g[0] == "cmp2" and g[1] in ("Ge", "Le") and ("HeapBuffer::capacity(" in describe(b, g[2]) + describe(b, g[3])) and ("checked_add(repr::Repr::len(p1), p2)" in describe(b, g[2]) + describe(b, g[3])) and _dir_ok(b, g) for g in gs)
-        inl_ok = _under(gs, "repr::Repr::is_heap_buffer", False) and _under(gs, "repr::Repr::is_static_buffer", False) and any(g[0] == "cmp" and g[3] == M and g[2] is None for g in gs)
+        inl_ok = _under(gs, "repr::Repr::is_heap_buffer", False) and _under(gs, "repr::Repr::is_static_buffer", False) and any(g[0] == "cmp" and g[3] == M and g[2] is None and "checked_add(repr::Repr::len(p1), p2)" in describe(b, g[1]) for g in gs)
         if not (cap_ok or inl_ok):
             continue
         # from here to return: no allocating call, no assignment to *self
@@ -355,6 +355,17 @@ def rule_reserve_post(ctx, rule="C11-reserve"):
             ctx.ob(rule, b.path, "fast-path:inline-within-limit", not bad, how="no allocation / reassignment when len+additional <= %d inline" % M, detail="inline-within-limit path of reserve still does %s" % bad)
     ctx.need(rule, b.path, "fast-path-a", found_a, "no block of reserve is guarded by `capacity >= len + additional` (the no-reallocation promise has no code path)")
     ctx.need(rule, b.path, "fast-path-b", found_b, "no block of reserve is guarded by inline `len + additional <= MAX_INLINE_SIZE`")
+    # inline results (capacity MAX_INLINE_SIZE) are produced or kept only when len + additional fits
+    NEED = r"checked_add\(repr::Repr::len\(p1\), p2\)"
+    for bb, t in b.calls():
+        if callee_name(t) == "repr::inline_buffer::InlineBuffer::new":
+            gs = guards_at(b, bb)
+            ok = any(g[0] == "cmp" and g[3] == M and g[2] is None and re.search(NEED, describe(b, g[1])) for g in gs)
+            ctx.ob(rule, b.path, "inline-only-if-needed-fits", ok, line=t.get("line", 0), how="conversion to inline storage behind len + additional <= %d" % M,
+                   detail="reserve converts to the %d-byte inline buffer without `len + additional <= %d` having been established: it returns Ok with capacity() < len() + additional" % (M, M))
+    for bb in range(b.n):
+        if b.term(bb)["k"] != "return" and not any(s["k"] == "assign" and s["lhs"]["l"] == 0 and s["rv"]["k"] == "aggregate" and s["rv"].get("variant_name") == "Ok" for s in b.blocks[bb]["stmts"]):
+            continue
     # the capacity test itself must come before any growth on the unique path: realloc sites are
     # dominated by the failing edge of that test
     for bb, t in b.calls():
